@@ -40,8 +40,18 @@ fn gen_call(m: &MObj, rng: &mut Rng, enc: TextEncoding, n: &mut i64, invalid: bo
     let o = mm.find_mut(&id).unwrap().clone();
     let keys = ["k0", "k1", "ключ😀", "c"];
     if invalid {
-        return match (typ, rng.below(7)) {
+        return match (typ, rng.below(9)) {
             (_, 0) => Call::Put { obj: "9999999@aabb".into(), key: Key::Map("k".into()), val: ScalarValue::Int(1) },
+            // a negative delete count reaching before the start of the sequence
+            (ObjType::List, 7 | 8) => {
+                let i = rng.below(o.list.len() + 1);
+                Call::Splice { obj: id, index: i, del: -((i + 1 + rng.below(3)) as isize), vals: if rng.chance(50) { vec![] } else { vec![ScalarValue::Int(1)] } }
+            }
+            (ObjType::Text, 7 | 8) => {
+                let (bounds, _) = o.text_layout(enc);
+                let i = if bounds.is_empty() { 0 } else { *rng.pick(&bounds) };
+                Call::SpliceText { obj: id, index: i, del: -((i + 1 + rng.below(3)) as isize), text: if rng.chance(50) { String::new() } else { "zz".into() } }
+            }
             (ObjType::Map | ObjType::Table, 1) => Call::Put { obj: id, key: Key::Seq(0), val: ScalarValue::Int(1) },
             (ObjType::Map | ObjType::Table, 2) => Call::Insert { obj: id, index: 0, val: ScalarValue::Int(1) },
             (ObjType::Map | ObjType::Table, _) => {
